@@ -502,13 +502,14 @@ func (p *c09) Run(w *lib.Worker, idx int, r *lib.Rand) lib.Case {
 			c.Sample = sample
 			return c
 		}
-		if spurious := strings.Contains(what, "accepted by its schema"); spurious && leafKind == "obj" && !pl.skipped {
+		if spurious := strings.Contains(what, "accepted by its schema"); spurious && leafKind == "obj" {
 			c.Known = []string{"swagger-prechecks-applied-to-default-and-example-values"}
 			c.KnownWhat = fmt.Sprintf("%s at %s (%s): %s: %v", pl.kind, pl.where, strings.Join(pl.chain, ">"), what, extra)
 			c.Sample = sample
 			return c
 		}
-		if pl.skipped {
+		if missing := strings.Contains(what, "was not reported as an error") || strings.Contains(what, "raised no warning"); pl.skipped && missing {
+			// the heuristic can only make a location be skipped: it explains a MISSING report, never a spurious one
 			c.Known = []string{"visited-suffix-heuristic"}
 			c.KnownWhat = fmt.Sprintf("%s at %s (%s): %s", pl.kind, pl.where, strings.Join(pl.chain, ">"), what)
 			c.Sample = sample
@@ -525,7 +526,7 @@ func (p *c09) Run(w *lib.Worker, idx int, r *lib.Rand) lib.Case {
 	// the same judgement from a validator object which has validated other documents before
 	if reused := session.Validate(badText, cfg); reused.Panic != "" || reused.Key() != badO.Key() {
 		c.Evals++
-		if !pl.skipped {
+		{
 			sample["reused_validator_outcome"] = reused
 			c.Viol = &lib.Violation{What: fmt.Sprintf("a SpecValidator which validated other documents before judges the planted %s differently from a fresh one: fresh=%v reused=%v (panic=%q) [%s at %s] doc=%s", pl.kind, badO.Errors, reused.Errors, reused.Panic, pl.kind, pl.where, badText), Detail: sample}
 			return c
